@@ -20,6 +20,19 @@ P = {
          "Coq proof over generated stringer tables (all integers) + differential sweep", "5 C16"),
 }
 
+P.update({
+ "C02": ("Theorems C02_generated, C02_new_mnemonic, C02_all_valid: for every function `lib` meeting the measured contract of norm.NFKD.String, every valid entropy (and every read script delivering enough bytes) and each declared language, the model of CheckMnemonic/IsMnemonicValid accepts the model generator's output; more generally every sentence of 12..24 (step 3) canonical words with a correct checksum joined by U+0020 or U+3000 is accepted, whatever the entropy bits. Rests on CheckMnemonic_spec (the validator decides the specification's classifier, proved over all strings, incl. the left-padding arithmetic that defect F1 broke), computed table facts and the NFKD join lemma. Differential: valid sentences with 0..8 leading zero bytes, every list word at rotating positions, generator output fed back.",
+         "Coq proof (validator = spec classifier; all valid sentences accepted) + differential correspondence on generated and crafted valid sentences", "5 C02"),
+ "C03": ("Theorems C03_sound, C03_iff, C03_unsupported, C03_count: acceptance implies that the Unicode-whitespace tokens of the NFKD form are 12..24 canonical words with a correct checksum - for every string and every lib meeting the contract (a non-xsafe string is rejected because U+034F cannot occur in a list word); IsMnemonicValid <-> nil; nil maps accept nothing; for any fixed prefix exactly 2^(11-n/3) of the 2048 last words are accepted (proved by a counting argument with the hash abstract, not enumeration). Differential: damaged sentences, substitutions, all 2048 last words of sample prefixes (set and count vs the specification).",
+         "Coq proof (acceptance => valid sentence, exact accept count) + differential search with full last-word sweeps", "5 C03"),
+ "C06": ("Theorems C06_newmnemonic, C06_read_full: for every read script (any fragmentation, zero-length reads, any error kind at any point, bytes alongside or not) the model of NewMnemonic (io.ReadAtLeast transcribed) returns the BIP39 encoding of the first 4n/3 delivered bytes with n words, or the empty string and the reader's error when fewer are delivered - by induction over the script. Differential through the verif swap hook: every failure point x kind x with/without bytes, 2-fragmentations, random fragmentations, bytewise and over-long readers; io.ReadFull itself against the transcription.",
+         "Coq proof by induction over read scripts + fault enumeration of the implementation through the swap hook", "5 C06"),
+ "C10": ("Theorems C10_same_nfkd, C10_valid_spellings: for every lib meeting the contract and every Language value, two strings with equal NFKD forms get the same verdict (inside xsafe even the same error); every spelling whose NFKD form is a valid sentence is accepted. The Gallina NFKD (UAX #15 over the pinned Unicode 15 table) is compared with norm.NFKD.String by the K stream. Differential: every list word in NFC/NFD/NFKC/full-width inside sentences, six separators that NFKD maps to U+0020, arbitrary Unicode in other normal forms.",
+         "Coq proof over an explicit library contract + differential correspondence on equivalent spellings", "5 C10"),
+ "C15": ("Theorems C15_classification, C15_count, C15_outside_xsafe, C15_nil_only_valid: the model's result is the specification's classifier (count -> ErrWordLen, else first unknown token and its position, else checksum -> ErrChecksumIncorrect, else nil) on the tokens of the NFKD form, for all xsafe strings; ErrWordLen for every string with a wrong count; unknown-word error outside xsafe. Sentinels and gate are regenerated from the source. Differential: single-defect sentences per language x count, errors.Is against each sentinel, token and position parsed from the message.",
+         "Coq proof (validator = spec classifier) + differential correspondence on single-defect sentences", "5 C15"),
+})
+
 NOT_YET = {}
 
 def main():
